@@ -131,10 +131,13 @@ Definition coords_ok (r : list pair) : Prop :=
 Lemma vset_comm (x : gvec R) i j a b : i <> j -> vset (vset x i a) j b = vset (vset x j b) i a.
 Proof. intros H. destruct x; destruct i, j; try contradiction; reflexivity. Qed.
 
-Lemma xyz_comm r x y v : distinct_targets r -> coords_ok r -> In x r -> In y r ->
+Definition pair_coords_ok (x y : pair) : Prop :=
+  (is_fract (tgt x) = true -> is_cartn (tgt y) = true -> False) /\ (is_fract (tgt y) = true -> is_cartn (tgt x) = true -> False).
+
+Lemma xyz_comm_pair r x y v : distinct_targets r -> pair_coords_ok x y -> In x r -> In y r ->
   xyz_step (xyz_step v x) y = xyz_step (xyz_step v y) x.
 Proof.
-  intros Hd Hc Hx Hy. unfold xyz_step, step_xyz.
+  intros Hd [Hc1 Hc2] Hx Hy. unfold xyz_step, step_xyz.
   destruct (tgt x) eqn:Tx; unfold tgt in Tx; rewrite Tx; try reflexivity;
   destruct (tgt y) eqn:Ty; unfold tgt in Ty; rewrite Ty; try reflexivity.
   - destruct (idx_eqb i i0) eqn:Ei.
@@ -142,13 +145,19 @@ Proof.
       assert (x = y) by (apply (same_target_eq r); unfold tgt; try assumption; [rewrite Tx, Ty; reflexivity | rewrite Tx; reflexivity]).
       subst y. reflexivity.
     + apply vset_comm. intros ->. destruct i0; discriminate.
-  - exfalso. apply (Hc x y Hx Hy); unfold tgt; [rewrite Tx | rewrite Ty]; reflexivity.
-  - exfalso. apply (Hc y x Hy Hx); unfold tgt; [rewrite Ty | rewrite Tx]; reflexivity.
+  - exfalso. apply Hc1; reflexivity.
+  - exfalso. apply Hc2; reflexivity.
   - rewrite !cart_frac. destruct (idx_eqb i i0) eqn:Ei.
     + assert (i = i0) by (destruct i, i0; try discriminate; reflexivity). subst i0.
       assert (x = y) by (apply (same_target_eq r); unfold tgt; try assumption; [rewrite Tx, Ty; reflexivity | rewrite Tx; reflexivity]).
       subst y. reflexivity.
     + f_equal. apply vset_comm. intros ->. destruct i0; discriminate.
+Qed.
+
+Lemma xyz_comm r x y v : distinct_targets r -> coords_ok r -> In x r -> In y r ->
+  xyz_step (xyz_step v x) y = xyz_step (xyz_step v y) x.
+Proof.
+  intros Hd Hc Hx Hy. apply (xyz_comm_pair r); try assumption. split; intros H1 H2; [exact (Hc x y Hx Hy H1 H2) | exact (Hc y x Hy Hx H1 H2)].
 Qed.
 
 (* ---------- occupancy ---------- *)
@@ -386,6 +395,87 @@ Proof.
   - intros u s Hu Hs'. apply (adp_aniso_flag r); assumption.
 Qed.
 
+(* ---------- the order in which _parse_atom_site_label applies the translators of a row ---------- *)
+Lemma phase_le2 so t : (phase so t <= 2)%nat.
+Proof. destruct so, t; cbn; lia. Qed.
+
+Lemma order_row_self so (r : list pair) : Permutation (order_row so r) r.
+Proof.
+  unfold order_row. induction r as [|p r IH]; [constructor|]. cbn [filter].
+  assert (Hp : forall k, in_phase so k p = Nat.eqb (phase so (s_target (fst p))) k) by reflexivity. rewrite !Hp.
+  pose proof (phase_le2 so (s_target (fst p))) as Hle.
+  destruct (phase so (s_target (fst p))) as [|[|[|k]]]; cbn [Nat.eqb]; try lia.
+  - cbn [app]. constructor. exact IH.
+  - eapply Permutation_trans; [apply Permutation_sym; apply Permutation_middle|]. constructor. exact IH.
+  - rewrite app_assoc. eapply Permutation_trans; [apply Permutation_sym; apply Permutation_middle|]. constructor.
+    rewrite <- app_assoc. exact IH.
+Qed.
+
+Lemma order_row_perm so (r r' : list pair) : Permutation r r' -> Permutation (order_row so r) (order_row so r').
+Proof. intros H. unfold order_row. repeat apply Permutation_app; apply perm_filter; exact H. Qed.
+
+(* site_ok for the three variants: when the Cartesian translators are applied last a row may carry both coordinate sets *)
+Definition site_ok_so (so : setter_order) (r : list pair) : Prop :=
+  distinct_targets r /\ symbols_ok r /\ no_uij r /\ (so = SOTypeFirstCartnLast \/ coords_ok r).
+
+Lemma symbols_perm r r' : Permutation r r' -> symbols_ok r -> symbols_ok r'.
+Proof. intros Hp H p s' Hin. apply H. apply (Permutation_in _ (Permutation_sym Hp)). exact Hin. Qed.
+Lemma no_uij_perm r r' : Permutation r r' -> no_uij r -> no_uij r'.
+Proof. intros Hp H p Hin. apply H. apply (Permutation_in _ (Permutation_sym Hp)). exact Hin. Qed.
+Lemma coords_perm r r' : Permutation r r' -> coords_ok r -> coords_ok r'.
+Proof. intros Hp H p q Hp' Hq. apply H; apply (Permutation_in _ (Permutation_sym Hp)); assumption. Qed.
+
+Lemma xyz_segment (big l l' : list pair) x : Permutation l l' -> incl l big -> distinct_targets big ->
+  (forall u v, In u l -> In v l -> pair_coords_ok u v) ->
+  fold_left xyz_step l' x = fold_left xyz_step l x.
+Proof.
+  intros Hp Hi Hd Hc. symmetry. apply (fold_left_perm xyz_step (fun _ => True)); auto.
+  intros u v a Hu Hv _. apply (xyz_comm_pair big); auto.
+Qed.
+
+Theorem site_row_order_so so r r' : Permutation r r' -> site_ok_so so r ->
+  run_row E (init_atom E) (order_row so r') = run_row E (init_atom E) (order_row so r).
+Proof.
+  intros Hp [Hd [Hs [Hn Hc]]].
+  pose proof (order_row_self so r) as S1. pose proof (order_row_perm so r r' Hp) as S2.
+  assert (Hd1 : distinct_targets (order_row so r)) by (apply (distinct_perm r); [apply Permutation_sym; exact S1 | exact Hd]).
+  assert (Hs1 : symbols_ok (order_row so r)) by (apply (symbols_perm r); [apply Permutation_sym; exact S1 | exact Hs]).
+  assert (Hn1 : no_uij (order_row so r)) by (apply (no_uij_perm r); [apply Permutation_sym; exact S1 | exact Hn]).
+  rewrite !run_row_components.
+  assert (H1 : fold_left lab_step (order_row so r') (a_label (init_atom E), a_elem (init_atom E)) =
+               fold_left lab_step (order_row so r) (a_label (init_atom E), a_elem (init_atom E))).
+  { symmetry. apply (fold_left_perm lab_step (fun _ => True)); auto. intros u v a Hu Hv _. apply (lab_comm (order_row so r)); assumption. }
+  assert (H3 : fold_left occ_step (order_row so r') (a_occ (init_atom E)) = fold_left occ_step (order_row so r) (a_occ (init_atom E))).
+  { symmetry. apply (fold_left_perm occ_step (fun _ => True)); auto. intros u v a Hu Hv _. apply (occ_comm (order_row so r)); assumption. }
+  assert (H2 : fold_left xyz_step (order_row so r') (a_xyz (init_atom E)) = fold_left xyz_step (order_row so r) (a_xyz (init_atom E))).
+  { destruct Hc as [Hso|Hc].
+    - (* Cartesian translators last: two segments, neither mixes the two coordinate sets *)
+      subst so.
+      set (A := fun l : list pair => (filter (in_phase SOTypeFirstCartnLast 0) l ++ filter (in_phase SOTypeFirstCartnLast 1) l)%list).
+      set (B := fun l : list pair => filter (in_phase SOTypeFirstCartnLast 2) l).
+      assert (Eo : forall l, order_row SOTypeFirstCartnLast l = (A l ++ B l)%list)
+        by (intros l; unfold order_row, A, B; rewrite app_assoc; reflexivity).
+      rewrite !Eo, !fold_left_app.
+      assert (HA : fold_left xyz_step (A r') (a_xyz (init_atom E)) = fold_left xyz_step (A r) (a_xyz (init_atom E))).
+      { apply (xyz_segment r); [unfold A; apply Permutation_app; apply perm_filter; exact Hp | | exact Hd |].
+        - intros u Hu. unfold A in Hu. apply in_app_or in Hu as [Hu|Hu]; apply filter_In in Hu as [Hu _]; exact Hu.
+        - intros u v Hu Hv. unfold A in Hu, Hv.
+          assert (Nu : is_cartn (tgt u) = false).
+          { apply in_app_or in Hu as [Hu|Hu]; apply filter_In in Hu as [_ Hu]; unfold in_phase, tgt in *; destruct (s_target (fst u)); try reflexivity; discriminate. }
+          assert (Nv : is_cartn (tgt v) = false).
+          { apply in_app_or in Hv as [Hv|Hv]; apply filter_In in Hv as [_ Hv]; unfold in_phase, tgt in *; destruct (s_target (fst v)); try reflexivity; discriminate. }
+          split; intros _ Hx; congruence. }
+      rewrite HA. apply (xyz_segment r); [unfold B; apply perm_filter; exact Hp | | exact Hd |].
+      + intros u Hu. unfold B in Hu. apply filter_In in Hu as [Hu _]. exact Hu.
+      + intros u v Hu Hv. unfold B in Hu, Hv. apply filter_In in Hu as [_ Hu]. apply filter_In in Hv as [_ Hv].
+        assert (Nu : is_fract (tgt u) = false) by (unfold in_phase, tgt in *; destruct (s_target (fst u)); try reflexivity; discriminate).
+        assert (Nv : is_fract (tgt v) = false) by (unfold in_phase, tgt in *; destruct (s_target (fst v)); try reflexivity; discriminate).
+        split; intros Hx _; congruence.
+    - assert (Hc1 : coords_ok (order_row so r)) by (apply (coords_perm r); [apply Permutation_sym; exact S1 | exact Hc]).
+      symmetry. apply (fold_left_perm xyz_step (fun _ => True)); auto. intros u v a Hu Hv _. apply (xyz_comm (order_row so r)); assumption. }
+  rewrite H1, H2, H3. f_equal. exact (adp_site_perm (order_row so r) (order_row so r') S2 Hd1 Hn1).
+Qed.
+
 (* ---------- whole loops ---------- *)
 Lemma existsb_perm {A} (q : A -> bool) l l' : Permutation l l' -> existsb q l = existsb q l'.
 Proof.
@@ -423,7 +513,7 @@ Proof.
 Qed.
 
 Theorem site_loop_order n cols cols' :
-  Permutation cols cols' -> NoDup (map (tc_name (T:=R)) cols) -> (forall i, (i < n)%nat -> site_ok (row_of cols i)) ->
+  Permutation cols cols' -> NoDup (map (tc_name (T:=R)) cols) -> (forall i, (i < n)%nat -> site_ok_so the_setter_order (row_of cols i)) ->
   read_site_loop E (TLoop n cols') = read_site_loop E (TLoop n cols).
 Proof.
   intros Hp Hn Hok. unfold read_site_loop. cbn [tl_cols tl_n].
@@ -432,7 +522,7 @@ Proof.
   apply fold_ext_in. intros acc i Hi. apply in_seq in Hi. destruct acc as [st|e]; [|reflexivity]. cbn [bind].
   unfold site_row. destruct (String.eqb (label_at lc i) "?"); [reflexivity|].
   rewrite (row_status_perm _ _ (row_of_perm cols cols' i Hp)).
-  rewrite (site_row_order _ _ (row_of_perm cols cols' i Hp) (Hok i ltac:(lia))). reflexivity.
+  rewrite (site_row_order_so _ _ _ (row_of_perm cols cols' i Hp) (Hok i ltac:(lia))). reflexivity.
 Qed.
 
 (* the atom a row of the aniso loop addresses is anisotropic once its flag has been settled *)
@@ -480,7 +570,7 @@ Qed.
 
 (* the whole reader: any order of the columns of either loop *)
 Theorem column_order find Tb cell n cols cols' m acols acols' b :
-  Permutation cols cols' -> NoDup (map (tc_name (T:=R)) cols) -> (forall i, (i < n)%nat -> site_ok (row_of cols i)) ->
+  Permutation cols cols' -> NoDup (map (tc_name (T:=R)) cols) -> (forall i, (i < n)%nat -> site_ok_so the_setter_order (row_of cols i)) ->
   Permutation acols acols' -> NoDup (map (tc_name (T:=R)) acols) -> (forall i, (i < m)%nat -> aniso_ok (row_of acols i)) ->
   (forall st0 lc, read_site_loop E (TLoop n cols) = Ok st0 -> label_col "_atom_site_aniso_label" acols = Some lc -> always_cond m acols lc st0) ->
   read_typed E find Tb cell (TLoop n cols') (Some (TLoop m acols')) b = read_typed E find Tb cell (TLoop n cols) (Some (TLoop m acols)) b.
